@@ -10,6 +10,9 @@ fn any_peer() -> PeerId {
 
 fn any_state<S: Default>(ins: impl Fn(&mut Behaviour<S>, PeerId)) -> Behaviour<S> {
     let mut b = Behaviour::<S>::default();
+    // pre-sized so that the operation under test does not reallocate the queue
+    // (VecDeque growth with a symbolic head/len exhausts CBMC's memory)
+    b.close_connections = VecDeque::with_capacity(4);
     if kani::any() {
         ins(&mut b, any_peer());
     }
